@@ -128,3 +128,9 @@ Fixpoint ggm_run (k0 k1 : bytes) (g : gstate bytes) (ops : list gop) : gstate by
   | [] => (g, [])
   | o :: t => let '(g1, r) := ggm_step k0 k1 g o in let '(g2, rs) := ggm_run k0 k1 g1 t in (g2, r :: rs)
   end.
+
+From StarV Require Import Wasm.
+Definition wasm_create := create_share KF.
+Definition wasm_group := group_shares KF.
+Definition agg_run (t : N) (epoch : bytes) (wire : list bytes) : outcome (list (bytes * list (option bytes))) :=
+  let! msgs := decode_messages wire in aggregate KF t epoch msgs.
